@@ -2,6 +2,7 @@
 import random
 from harness.mq import gen_group, evaluate, cases_from_replay
 from harness.mqoracle import oracle_c13, oracle_c12
+from harness import dynsched
 
 ASSUMPTIONS = [
     'workloads over the configured flows; priorities are positive numbers (whole numbers, and in 30% of the tables quarters sharing an integer part, values below 1, values beyond 2**31); sizes positive integers; rate > 0; `out` attached',
@@ -13,6 +14,10 @@ ASSUMPTIONS = [
     'for SP written as processes on the kernel MODEL it is a theorem (Props/C13K.lean), and that program is compared bit for bit with the real SP (spk leg)',
     'SP\'s annotation packet.priorities[flow2class(flow)] = prio is not modelled (it influences nothing the property speaks about)',
 ]
+ASSUMPTIONS.append('reconfiguration while running (oracle-only family, harness/dynsched.py): `sp.priorities` is re-bound to a new list or edited in place (the list format the '
+                   'constructor builds: (flow, priority) pairs, most urgent first) by another process while the server is backlogged; "no packet of a flow with a strictly '
+                   'higher priority value is waiting" is read with the table in force at the start of service (a start in the very instant of a change is not judged); also '
+                   '`rate` reassigned and next hops that hand packets straight back to put() or re-label them')
 EXTRA_MODULES = ('OnlVerif.Props.C13K',)
 TRUSTED_EXTRA = ['the kernel guarantees (G1-G3) that make `tick` admissible only at quiescence are theorems of model K (C01), assumed for the device LTS']
 
@@ -209,6 +214,7 @@ def run(ctx):
         return sk
     rng = random.Random(f'C13-{ctx.seed}')
     cases = cases_from_replay(ctx.replay) if ctx.replay else gen(rng, 500 if ctx.quick else 10000)
+    cases = [c for c in cases if not str(c.get('kind', '')).startswith('dyn:')]      # (a replay of an oracle-only case: see below)
     res = evaluate(
         cases, [oracle_c13, oracle_c12],
         nontrivial=lambda c, r, st, co: st.get('multi_level_decisions', 0) > 0,
@@ -216,4 +222,9 @@ def run(ctx):
              'front-loaded backlogs, arrivals at transmission ends, idle gaps); non-trivial = distinct case with at least one '
              'decision taken while packets of two or more priority levels were waiting')
     run_spk(ctx, res)                        # spk leg: appends its coverage, disagreements and oracle failures in place
+    # oracle-only: the priority table re-bound / edited in place while the server is backlogged (strict priority with the table in force at the
+    # start of service), the rate reassigned, re-entrant and re-labelling next hops
+    d = dynsched.run_family(ctx, 'C13', ['sp'], ['priorities', 'priorities', 'priorities', 'rate', 'reflect', 'relabel'], ['priority', 'service'], 70, 1400)
+    res['coverage']['reconfigured_and_reentrant_family_oracle_only'] = d['coverage']
+    res['oracle_failures'] += d['oracle_failures']
     return res
